@@ -10,7 +10,7 @@ VARIABLES l, bad
 e == Rec[l]
 If(cnd, t) == IF cnd THEN {t} ELSE {}
 TraceInit == l = 1 /\ bad = {}
-Twin(x) == {Rec[i] : i \in {j \in DOMAIN Rec : Rec[j].key = x.key /\ Rec[j].where = x.where /\ Rec[j].twin = x.twin /\ Rec[j].pert = "none"}}
+Twin(x) == {Rec[i] : i \in {j \in DOMAIN Rec : Rec[j].key = x.key /\ Rec[j].where = x.where /\ Rec[j].twin = x.twin /\ Rec[j].life = x.life /\ Rec[j].pert = "none"}}
 TraceCase ==
   /\ l <= Len(Rec)
   /\ l' = l + 1
